@@ -30,6 +30,33 @@ def drive(family, prop, seed, tier, n, parts, extra=None, tagx=""):
     return files, lines
 
 
+def split_by_daemon(path):
+    """Multi-daemon traces (conflict family) are judged per daemon by the single-daemon monitors:
+    one file per daemon index with that daemon's lines plus the shared ones (reset, adv, end)."""
+    outs = {}
+    with open(path) as f:
+        for line in f:
+            if not line.strip():
+                continue
+            v = json.loads(line)
+            ds = [v["d"]] if "d" in v else None
+            if ds is None:
+                if v["e"] == "reset":
+                    n = v["scen"].get("n", 1)
+                    known = set(range(n))
+                for d in (known if v["e"] in ("reset", "adv", "end") else []):
+                    outs.setdefault(d, []).append(line)
+            else:
+                outs.setdefault(ds[0], []).append(line)
+    files = []
+    for d, lines in sorted(outs.items()):
+        p = "%s.d%d" % (path, d)
+        with open(p, "w") as f:
+            f.writelines(lines)
+        files.append(p)
+    return files
+
+
 def validate(module, cfg, files, tag):
     def one(i_path):
         i, path = i_path
